@@ -7,7 +7,7 @@ using namespace vf;
 
 static void seed_gen(const std::string &key, int k) { uint32_t v[3] = {(uint32_t)S().seed, (uint32_t)fnv(key.data(), key.size()), (uint32_t)k}; tfhe_random_generator_setSeed(v, 3); }
 static std::vector<int> messages(int M) { std::vector<int> m; if (M <= 64) for (int i = 0; i < M; i++) m.push_back(i); else m = {0, 1, M / 2, M - 1}; return m; }
-static const int MS[] = {2, 3, 4, 5, 7, 8, 16, 17, 64, 1000, 1024};
+static const int MS[] = {2, 3, 4, 5, 7, 8, 16, 17, 64, 1000, 1024, 65537, 1 << 20, 1234567};
 static std::vector<double> alphas(int M) { return {0., std::pow(2., -30), std::pow(2., -25), std::min(std::pow(2., -15), 1. / (20. * M)), 1. / (40. * M), 1. / (20. * M)}; }
 
 static void lwe_cases(int K) {
@@ -81,6 +81,47 @@ static void tgsw_cases(int K) {
     sample("tgsw/l=3/Bgbit=7/k=1/M=8/alpha=5(=1/(20*Bg)): message polynomial with coefficient j = (5j+1) mod 8; tGswSymDecrypt == message mod 8");
 }
 
+// histories: a decryption must not depend on what was decrypted before in the same process (other parameter set, same Msize; other Msize, same set)
+static void history_cases() {
+    const int N = 1024;
+    struct L { int l, Bgbit; } Ls[] = {{2, 10}, {3, 7}, {4, 8}, {2, 16}, {3, 10}};
+    for (int a = 0; a < 5; a++) for (int b = 0; b < 5; b++) for (int M : {2, 4, 8}) for (int M2 : {0, 1}) {
+        if (a == b && !M2) continue;
+        int Mb = M2 ? (M == 8 ? 2 : M * 2) : M;
+        std::string key = fmt("history/tgsw/(%d,%d)M=%d-then-(%d,%d)M=%d-then-first", Ls[a].l, Ls[a].Bgbit, M, Ls[b].l, Ls[b].Bgbit, Mb);
+        if (!take(key)) continue; if (deadline()) return;
+        current(key); seed_gen(key, 0);
+        TLweParams *tp = new_TLweParams(N, 1, 0., 0.25); TGswParams *gp[2] = {new_TGswParams(Ls[a].l, Ls[a].Bgbit, tp), new_TGswParams(Ls[b].l, Ls[b].Bgbit, tp)};
+        TGswKey *sk[2]; TGswSample *c[2]; IntPolynomial *msg = new_IntPolynomial(N), *dec = new_IntPolynomial(N); int Ms[2] = {M, Mb};
+        for (int q = 0; q < 2; q++) { sk[q] = new_TGswKey(gp[q]); tGswKeyGen(sk[q]); c[q] = new_TGswSample(gp[q]); }
+        for (int step = 0; step < 3; step++) { int q = step == 1 ? 1 : 0; int Mq = Ms[q]; double alpha = 1. / (80. * (1 << (q ? Ls[b].Bgbit : Ls[a].Bgbit)));
+            for (int j = 0; j < N; j++) msg->coefs[j] = (j * 3 + step) % Mq;
+            tGswSymEncrypt(c[q], msg, alpha, sk[q]); tGswSymDecrypt(dec, c[q], sk[q], Mq);
+            for (int j = 0; j < N; j++) if (((dec->coefs[j] - msg->coefs[j]) % Mq + Mq) % Mq != 0) { violation(key, fmt("step %d (l=%d Bgbit=%d Msize=%d): coefficient %d message %d decrypts to %d after earlier decryptions in this process", step + 1, q ? Ls[b].l : Ls[a].l, q ? Ls[b].Bgbit : Ls[a].Bgbit, Mq, j, msg->coefs[j], dec->coefs[j])); step = 3; break; }
+            eval(1); }
+        nontrivial(1); outcome(mix(a * 5 + b, M * 2 + M2));
+        for (int q = 0; q < 2; q++) { delete_TGswSample(c[q]); delete_TGswKey(sk[q]); delete_TGswParams(gp[q]); } delete_IntPolynomial(msg); delete_IntPolynomial(dec); delete_TLweParams(tp);
+    }
+    // LWE / TLWE: alternate dimensions and message spaces
+    for (int M : {3, 8, 1000}) for (int M2 : {5, 8, 17}) {
+        std::string key = fmt("history/lwe-tlwe/M=%d,%d", M, M2);
+        if (!take(key)) continue; if (deadline()) return;
+        current(key); seed_gen(key, 0);
+        LweParams *p1 = new_LweParams(9, 1e-4, 0.25), *p2 = new_LweParams(630, 1e-4, 0.25); LweKey *k1 = new_LweKey(p1), *k2 = new_LweKey(p2); lweKeyGen(k1); lweKeyGen(k2); LweSample *c1 = new_LweSample(p1), *c2 = new_LweSample(p2);
+        TLweParams *t1 = new_TLweParams(N, 1, 1e-6, 0.25), *t2 = new_TLweParams(N, 2, 1e-6, 0.25); TLweKey *tk1 = new_TLweKey(t1), *tk2 = new_TLweKey(t2); tLweKeyGen(tk1); tLweKeyGen(tk2); TLweSample *tc1 = new_TLweSample(t1), *tc2 = new_TLweSample(t2);
+        TorusPolynomial *msg = new_TorusPolynomial(N), *dec = new_TorusPolynomial(N);
+        for (int step = 0; step < 6; step++) { int Mq = (step & 1) ? M2 : M; bool ok = true;
+            Torus32 mu = modSwitchToTorus32((step + 1) % Mq, Mq);
+            LweKey *kk = (step % 3 == 0) ? k1 : k2; LweSample *cc = (step % 3 == 0) ? c1 : c2; lweSymEncrypt(cc, mu, 1e-4, kk); if (lweSymDecrypt(cc, kk, Mq) != mu) ok = false;
+            TLweKey *tk = (step % 2) ? tk2 : tk1; TLweSample *tc = (step % 2) ? tc2 : tc1; for (int j = 0; j < N; j++) msg->coefsT[j] = modSwitchToTorus32((j + step) % Mq, Mq);
+            tLweSymEncrypt(tc, msg, 1e-6, tk); tLweSymDecrypt(dec, tc, tk, Mq); if (memcmp(dec->coefsT, msg->coefsT, N * 4)) ok = false;
+            tLweSymEncryptT(tc, mu, 1e-6, tk); if (tLweSymDecryptT(tc, tk, Mq) != mu) ok = false;
+            if (!ok) { violation(key, fmt("step %d (Msize=%d): a decryption differs from the message after earlier operations in this process", step + 1, Mq)); break; } eval(3); }
+        nontrivial(1); outcome(mix(M, M2));
+    }
+    sample("history/tgsw/(3,10)M=4-then-(4,8)M=4-then-first: three encrypt/decrypt round trips in one process, alternating parameter sets with the same Msize");
+}
+
 static void trivial_cases(int K) {
     for (int n : {1, 7, 630}) for (int M : MS) {
         std::string key = fmt("trivial/lwe/n=%d/M=%d", n, M);
@@ -123,6 +164,6 @@ static void gate_cases(int K) {
 int main(int argc, char **argv) {
     init(argc, argv);
     int K = (int)opti("K", quick() ? 1 : 4);
-    lwe_cases(K); tlwe_cases(K); tgsw_cases(K); trivial_cases(K); gate_cases(K);
+    lwe_cases(K); tlwe_cases(K); tgsw_cases(K); history_cases(); trivial_cases(K); gate_cases(K);
     return finish();
 }
